@@ -33,6 +33,7 @@ LEAVES = {
     "lingrad": ('<linearGradient id="lg{i}" x1="0" y1="0" x2="1" y2="1"><stop offset="0" stop-color="red"/><stop offset="1" stop-color="blue"/></linearGradient>', '<rect x="15" y="65" width="50" height="25" fill="url(#lg{i})"/>', False),
     "radgrad": ('<radialGradient id="rg{i}" cx="50%" cy="50%" r="60%" fx="30%"><stop offset="10%" stop-color="white"/><stop offset="90%" stop-color="black" stop-opacity=".5"/></radialGradient>', '<circle cx="70" cy="30" r="16" fill="url(#rg{i})" transform="translate(3 4)"/>', False),
     "hrefgrad": ('<linearGradient id="tp{i}" gradientUnits="userSpaceOnUse" x1="10" x2="90"><stop offset="0" stop-color="#ff0"/><stop offset="1" stop-color="#0ff"/></linearGradient><linearGradient id="hg{i}" xlink:href="#tp{i}" y2="40" gradientTransform="rotate(10)"/>', '<ellipse cx="50" cy="20" rx="30" ry="10" fill="url(#hg{i})"/>', False),
+    "pathexp": ("", '<path d="M10,10 L2e-05,40 L-5e-05,20 7e-06 30 60 3e-07 Z" fill="red"/>', False),
     "gradinfpct": ('<linearGradient id="gi{i}" x1="-inf%" x2="1e999%"><stop offset="0" stop-color="red"/><stop offset="1" stop-color="blue"/></linearGradient>', '<rect x="15" y="45" width="50" height="15" fill="url(#gi{i})"/>', False),
     "nestedsvg": ("", '<svg x="10" y="10" width="40" height="30" viewBox="0 0 80 80"><rect x="-10" y="10" width="70" height="40" fill="brown"/></svg>', False),
     "symbolid": ('<symbol id="s{i}"><rect width="5" height="5"/></symbol>', "", True),
@@ -63,6 +64,8 @@ GROUP_ATTRS = {
     "gxf": ' transform="translate(4 -3) rotate(15)"',
     "gfill": ' fill="crimson" fill-opacity=".5"',
     "gopxf": ' opacity=".25" transform="scale(.5)"',
+    # a translucent group that also carries attributes nothing inherits or handles (they must not survive on a kept group)
+    "gopx": ' opacity=".4" class="layer" visibility="visible" aria-label="l" data-name="n" pointer-events="none" style="mix-blend-mode:multiply;isolation:isolate"',
 }
 
 ROOT_ATTRS = {
